@@ -20,16 +20,35 @@
 (***************************************************************************)
 EXTENDS Types, Sequences
 
-(* exact arithmetic modulo 360 (Mod360, CanonSigned, CircDist, UlpExp, Prec, MinExp) from C11's model;
-   that module's state variable is irrelevant here *)
-HueM == INSTANCE Hue WITH last <- <<"none", "f32">>
-
+(* Exact arithmetic modulo 360 on dyadics.  These are the definitions of C11's model (Hue.tla: Mod360, CanonSigned,
+   CircDist, Congruent, UlpExp) repeated verbatim under a namespace-like prefix: instantiating that module here makes
+   TLC's -coverage run out of memory (its cost model unrolls the recursive operators of the instantiated number
+   library).  MC_Ops asserts that the two sets of definitions agree on the hue lattice. *)
+Prec(t) == IF t = "f32" THEN 24 ELSE 53            \* significand bits
+MinExp(t) == IF t = "f32" THEN -149 ELSE -1074     \* log2 of the smallest positive value
 D0 == DyZero
 D1 == DyFromInt(1)
 D180 == DyFromInt(180)
 D360 == DyFromInt(360)
-Prec(t) == HueM!Prec(t)
-MinExp(t) == HueM!MinExp(t)
+LOCAL MinI(a, b) == IF a <= b THEN a ELSE b
+LOCAL MaxI(a, b) == IF a >= b THEN a ELSE b
+(* the fractional part of |d| as a Dy in [0, 1) *)
+HueFracMag(d) ==
+  IF d[1] = 0 \/ d[2] >= 0 THEN DyZero
+  ELSE LET low == Norm(SubSeq(d[3], 1, MinI(-d[2], Len(d[3]))))
+       IN IF low = <<>> THEN DyZero ELSE <<1, d[2], low>>
+(* x mod 360 in [0, 360), exact *)
+HueMod360(d) ==
+  IF d[1] = 0 THEN DyZero
+  ELSE LET rp == DyAdd(DyFromInt(ModSmall(DyTruncMag(d), 360)), HueFracMag(d))
+       IN IF d[1] > 0 \/ DyIsZero(rp) THEN rp ELSE DySub(D360, rp)
+(* distance of d from the nearest multiple of 360, in [0, 180] *)
+HueCircDist(d) == LET r == HueMod360(d) IN DyMin(r, DySub(D360, r))
+HueCongruent(x1, x2) == DyIsZero(HueMod360(DySub(x1, x2)))
+(* the representative in (-180, 180] *)
+HueCanonSigned(x) == LET r == HueMod360(x) IN IF DyLe(r, D180) THEN r ELSE DySub(r, D360)
+(* log2 of the unit in the last place of a value v # 0 stored in type t *)
+UlpExp(t, v) == MaxI(DyLog2(v) - (Prec(t) - 1), MinExp(t))
 Absent(b) == b = <<>>
 
 Mag2(a, b) == DyMax(DyAbs(a), DyAbs(b))
@@ -87,7 +106,7 @@ Clamp01(f) == ClampTo(f, D0, D1)
 MixLin(a, b, f) == DyAdd(a, DyMul(DySub(b, a), Clamp01(f)))
 (* hue: by the signed shortest difference r in (-180, 180] of hb - ha.  At |r| = 180 exactly the two ways
    round are equally short and BOTH directions are admissible (palette's normalisation happens to give +180). *)
-SignedDiff(ha, hb) == HueM!CanonSigned(DySub(hb, ha))
+SignedDiff(ha, hb) == HueCanonSigned(DySub(hb, ha))
 OtherWay(r) == IF DySign(r) > 0 THEN DySub(r, D360) ELSE DyAdd(r, D360)
 MixHueWith(ha, r, f) == DyAdd(ha, DyMul(r, Clamp01(f)))
 MixHueSet(ha, hb, f) == LET r == SignedDiff(ha, hb)
@@ -169,14 +188,14 @@ ArithK == 16
 Tol(t, M) == DyAdd(DyMulInt(DyMulPow2(M, -Prec(t)), ArithK), DyPow2(MinExp(t)))
 Near(t, x, y, M) == DyLe(DyAbs(DySub(x, y)), Tol(t, M))
 (* angles: equal as points of the circle *)
-NearAngle(t, x, y, M) == DyLe(HueM!CircDist(DySub(x, y)), Tol(t, DyMax(M, D360)))
+NearAngle(t, x, y, M) == DyLe(HueCircDist(DySub(x, y)), Tol(t, DyMax(M, D360)))
 
 (* ---- Mix *)
 MixCompOK(t, a, b, f, out) == Near(t, out, MixLin(a, b, f), Mag3(a, b, DySub(b, a)))
 (* the direction is decided by hb - ha, which the implementation rounds: within Tol of opposite hues either
    direction is admissible *)
 MixHueOK(t, ha, hb, f, out) ==
-  LET d == DySub(hb, ha)  r == HueM!CanonSigned(d)
+  LET d == DySub(hb, ha)  r == HueCanonSigned(d)
       M == DyMax(Mag3(ha, hb, d), D360)
       opposite == DyLe(DySub(D180, DyAbs(r)), Tol(t, M))
   IN \/ NearAngle(t, out, MixHueWith(ha, r, f), M)
@@ -190,7 +209,7 @@ BetweenComp(t, a, b, out) == LET s == Tol(t, Mag3(a, b, DySub(b, a)))
                              IN DyLe(DySub(DyMin(a, b), s), out) /\ DyLe(out, DyAdd(DyMax(a, b), s))
 BetweenHue(t, ha, hb, out) ==
   LET s == Tol(t, DyMax(Mag3(ha, hb, DySub(hb, ha)), D360))
-  IN DyLe(DyAdd(HueM!CircDist(DySub(out, ha)), HueM!CircDist(DySub(hb, out))), DyAdd(HueM!CircDist(DySub(hb, ha)), s))
+  IN DyLe(DyAdd(HueCircDist(DySub(out, ha)), HueCircDist(DySub(hb, out))), DyAdd(HueCircDist(DySub(hb, ha)), s))
 Between(node, t, a, b, out) ==
   \A i \in DOMAIN a : IF i = HueIdx(node) THEN BetweenHue(t, a[i], b[i], out[i]) ELSE BetweenComp(t, a[i], b[i], out[i])
 
@@ -215,7 +234,7 @@ RangeOK(tr, node, lo, hi, out) == \A i \in AffIdx(tr, node) : CompWithin(out[i],
 (* "monotonically toward the limit": along a sweep of one colour over increasing factors the affected component
    does not move back (blackness of the HWB-like types: does not move up).  Floating point addition and
    multiplication are monotone, so the principled slack is 0; one ulp of the component's range is allowed. *)
-MonoSlack(t, lo, hi) == DyPow2(HueM!UlpExp(t, Mag2(lo, hi)))
+MonoSlack(t, lo, hi) == DyPow2(UlpExp(t, Mag2(lo, hi)))
 MonoOK(tr, node, t, lo, hi, prevOut, out) ==
   \A i \in AffIdx(tr, node) :
      IF tr = "Lighten" /\ IsHwb(node) /\ i = 3
